@@ -17,8 +17,8 @@ open Model.Interp Model.Taus Model.TabLoad TablesReal Bilinear VecInterp CdfSamp
 
 theorem shipped_v1_ok : CdfTableOK (cdf1 : CdfTable ℝ) := by
   have d := Data.t1_dims
-  refine cdfTableOK_mk _ _ _ _ _ _ _ ⟨d.1, d.2.1, d.2.2.1, d.2.2.2.1, d.2.2.2.2.2.2.2.1, d.2.2.2.2.2.2.2.2.1, d.2.2.2.2.2.2.2.2.2.1⟩
-    Data.t1_axes_test ?_
+  refine cdfTableOK_mk _ _ _ _ _ _ _ ⟨Data.t1_byE.1, Data.allLen_sound _ _ Data.t1_byE.2, d.2.1, d.2.2.1, d.2.2.2.1,
+    d.2.2.2.2.2.2.2.1, d.2.2.2.2.2.2.2.2.1, d.2.2.2.2.2.2.2.2.2.1⟩ Data.t1_axes_test ?_
   intro r hr
   have := Swar.allL_mem Data.t1_cdf_test r hr
   rw [Data.t1_G, Data.t1_Gf, Data.t1_P] at this
@@ -26,8 +26,8 @@ theorem shipped_v1_ok : CdfTableOK (cdf1 : CdfTable ℝ) := by
 
 theorem shipped_v2_ok : CdfTableOK (cdf2 : CdfTable ℝ) := by
   have d := Data.t2_dims
-  refine cdfTableOK_mk _ _ _ _ _ _ _ ⟨d.1, d.2.1, d.2.2.1, d.2.2.2.1, d.2.2.2.2.2.2.2.1, d.2.2.2.2.2.2.2.2.1, d.2.2.2.2.2.2.2.2.2.1⟩
-    Data.t2_axes_test ?_
+  refine cdfTableOK_mk _ _ _ _ _ _ _ ⟨Data.t2_byE.1, Data.allLen_sound _ _ Data.t2_byE.2, d.2.1, d.2.2.1, d.2.2.2.1,
+    d.2.2.2.2.2.2.2.1, d.2.2.2.2.2.2.2.2.1, d.2.2.2.2.2.2.2.2.2.1⟩ Data.t2_axes_test ?_
   intro r hr
   have := Swar.allL_mem Data.t2_cdf_test r hr
   rw [Data.t2_G, Data.t2_Gf, Data.t2_P] at this
@@ -35,8 +35,8 @@ theorem shipped_v2_ok : CdfTableOK (cdf2 : CdfTable ℝ) := by
 
 theorem shipped_v3_ok : CdfTableOK (cdf3 : CdfTable ℝ) := by
   have d := Data.t3_dims
-  refine cdfTableOK_mk _ _ _ _ _ _ _ ⟨d.1, d.2.1, d.2.2.1, d.2.2.2.1, d.2.2.2.2.2.2.2.1, d.2.2.2.2.2.2.2.2.1, d.2.2.2.2.2.2.2.2.2.1⟩
-    Data.t3_axes_test ?_
+  refine cdfTableOK_mk _ _ _ _ _ _ _ ⟨Data.t3_byE.1, Data.allLen_sound _ _ Data.t3_byE.2, d.2.1, d.2.2.1, d.2.2.2.1,
+    d.2.2.2.2.2.2.2.1, d.2.2.2.2.2.2.2.2.1, d.2.2.2.2.2.2.2.2.2.1⟩ Data.t3_axes_test ?_
   intro r hr
   have := Swar.allL_mem Data.t3_cdf_test r hr
   rw [Data.t3_G, Data.t3_Gf, Data.t3_P] at this
